@@ -174,10 +174,22 @@ V_ENSURES(!__CPROVER_return_value || g_hu_hash != &zck->check_full_hash || (g_hu
  * chunk 0, end-of-data flag clear, running chunk hash empty), the descriptor at the first stored
  * byte of the chunk, the dictionary loaded if the file has one.  Checked at the call site only
  * in units that set g_canon_on. */
+#ifdef VERIF_CTL
+#define RD_START_OF(ix) ((ix)->start)
+#define RD_DICT_LEN(z) ((z)->index.first->length)
+#else
+#define RD_START_OF(ix) RD_F(ix, start)
+#define RD_DICT_LEN(z) (g_n1->length)
+#endif
+#ifdef VERIF_CANON
+#define V_REQUIRES_CANON(x) V_REQUIRES(x)
+#else
+#define V_REQUIRES_CANON(x)
+#endif
 #define RD_CANON(z, ix) ((z)->comp.data == NULL && (z)->comp.data_size == 0 && (z)->comp.data_loc == 0 && (z)->comp.data_eof == 0 && \
     (z)->comp.dc_data_size == (z)->comp.dc_data_loc && (z)->comp.data_idx == (ix) && (z)->comp.started != 0 && \
     ((z)->check_chunk_hash.ctx == NULL || g_hu_hash != &(z)->check_chunk_hash || g_hu_total == 0) && \
-    g_fpos[G_IX((z)->fd)] == (g_off_t)(z)->data_offset + (g_off_t)RD_F(ix, start) && (g_n1->length == 0 || (z)->comp.dict != NULL))
+    g_fpos[G_IX((z)->fd)] == (g_off_t)(z)->data_offset + (g_off_t)RD_START_OF(ix) && (RD_DICT_LEN(z) == 0 || (z)->comp.dict != NULL))
 
 /* comp_read: the reader's main loop.  Ghost accounting (C02): the whole-data hash is fed exactly the
  * bytes read from the descriptor in this call (unless the file carries the uncompressed-source flag, for
@@ -187,7 +199,7 @@ ssize_t comp_read(zckCtx *zck, char *dst, size_t dst_size, bool use_dict)
 V_REQUIRES(__CPROVER_rw_ok(zck, sizeof(*zck)) && RD_CTL(zck))
 V_REQUIRES_WF(RD_WF(zck))
 V_REQUIRES(dst != NULL && (dst_size == 0 || __CPROVER_w_ok(dst, dst_size)))   /* every caller passes a buffer (zck_read checks, import_dict allocates) */
-V_REQUIRES_WF(!g_canon_on || RD_CANON(zck, g_canon_idx)) /*@C14.comp_read.random_access_starts_from_the_canonical_state*/
+V_REQUIRES_CANON(RD_CANON(zck, g_canon_idx)) /*@C14.comp_read.random_access_starts_from_the_canonical_state*/   /* only in units compiled with -DVERIF_CANON (the random-access units) */
 V_ASSIGNS(zck->comp, zck->check_chunk_hash.type, zck->check_chunk_hash.ctx, zck->error_state, g_hu_total, g_hu_seen, g_hu_ptr, g_hu_final, g_hu_inits, g_fin_val, g_fin_total, g_fin_seen, g_fin_ptr, g_fpos, g_rd_bytes, g_io_failed, g_last_read, g_watch_seen, g_watch_val; dst != NULL && dst_size > 0: __CPROVER_object_upto(dst, dst_size); RD_VALID_TARGETS(zck))
 V_ENSURES(__CPROVER_return_value >= -2 && (__CPROVER_return_value < 0 || (size_t)__CPROVER_return_value <= dst_size)) /*@C03,C02.comp_read.never_more_than_asked*/
 V_ENSURES(__CPROVER_return_value < 0 || (V_OLD(zck->error_state) == 0 && zck->error_state == 0 && zck->mode == ZCK_MODE_READ)) /*@C15,C02,C12.comp_read.no_success_once_an_error_arose*/
@@ -201,17 +213,26 @@ V_ENSURES_WF(__CPROVER_return_value < 0 || !use_dict || dst_size == 0 || g_n1->l
 /* API-level invariant on top of RD_WF: the data section starts right after the header, and a reader
  * that has not loaded the file's dictionary yet has not consumed anything */
 #define RD_API(z) ((z)->data_offset == (z)->lead_size + (z)->header_length && (z)->lead_size + (z)->header_length >= (z)->lead_size && \
-    (g_n1->length == 0 || (z)->comp.dict != NULL || ((z)->comp.data_idx == NULL && (z)->comp.data_loc == 0 && (z)->comp.data_size == 0 && (z)->comp.dc_data_size == (z)->comp.dc_data_loc)))
+    (RD_DICT_LEN(z) == 0 || (z)->comp.dict != NULL || ((z)->comp.data_idx == NULL && (z)->comp.data_loc == 0 && (z)->comp.data_size == 0 && (z)->comp.dc_data_size == (z)->comp.dc_data_loc)))
 
+/* the context of a random-access request: in control-only units simply the chunk's own context (any
+ * list), otherwise the context the named list hangs off */
+#ifdef VERIF_CTL
+#define GCD_Z(idx) ((idx)->zck)
+#else
+#define GCD_Z(idx) (g_n1->zck)
+#endif
 ssize_t zck_get_chunk_data(zckChunk *idx, char *dst, size_t dst_size)
-V_REQUIRES(idx != NULL && (idx == g_n1 || idx == g_n2 || idx == g_n3) && g_n1 != NULL && __CPROVER_rw_ok(g_n1->zck, sizeof(zckCtx)) && idx->zck == g_n1->zck)
-V_REQUIRES(RD_WF(g_n1->zck) && RD_API(g_n1->zck))
+V_REQUIRES(idx != NULL && __CPROVER_rw_ok(idx, sizeof(*idx)) && idx->zck != NULL && __CPROVER_rw_ok(idx->zck, sizeof(zckCtx)))
+V_REQUIRES_WF((idx == g_n1 || idx == g_n2 || idx == g_n3) && g_n1 != NULL && idx->zck == g_n1->zck)
+V_REQUIRES_WF(RD_WF(g_n1->zck))
+V_REQUIRES(RD_CTL(GCD_Z(idx)) && RD_API(GCD_Z(idx)))
 V_REQUIRES(dst == NULL || dst_size == 0 || __CPROVER_w_ok(dst, dst_size))
-V_ASSIGNS(g_n1->zck->comp, g_n1->zck->check_chunk_hash.type, g_n1->zck->check_chunk_hash.ctx, g_n1->zck->error_state, g_hu_total, g_hu_seen, g_hu_ptr, g_hu_final, g_hu_inits, g_fin_val, g_fin_total, g_fin_seen, g_fin_ptr, g_fpos, g_rd_bytes, g_io_failed, g_last_read, g_watch_seen, g_watch_val; dst != NULL && dst_size > 0: __CPROVER_object_upto(dst, dst_size); RD_VALID_TARGETS(zck))
-V_FREES(g_n1->zck->comp.data, g_n1->zck->comp.dc_data, g_n1->zck->check_chunk_hash.ctx)
+V_ASSIGNS(GCD_Z(idx)->comp, GCD_Z(idx)->check_chunk_hash.type, GCD_Z(idx)->check_chunk_hash.ctx, GCD_Z(idx)->error_state, g_hu_total, g_hu_seen, g_hu_ptr, g_hu_final, g_hu_inits, g_fin_val, g_fin_total, g_fin_seen, g_fin_ptr, g_fpos, g_rd_bytes, g_io_failed, g_last_read, g_watch_seen, g_watch_val; dst != NULL && dst_size > 0: __CPROVER_object_upto(dst, dst_size); RD_VALID_TARGETS(zck))
+V_FREES(GCD_Z(idx)->comp.data, GCD_Z(idx)->comp.dc_data, GCD_Z(idx)->check_chunk_hash.ctx)
 V_ENSURES(__CPROVER_return_value >= -2 && (__CPROVER_return_value < 0 || (size_t)__CPROVER_return_value <= dst_size)) /*@C03,C14.zck_get_chunk_data.never_more_than_asked*/
 V_ENSURES(__CPROVER_return_value < 0 || (size_t)__CPROVER_return_value <= idx->length) /*@C14.zck_get_chunk_data.at_most_the_declared_size*/
-V_ENSURES(__CPROVER_return_value <= 0 || (V_OLD(g_n1->zck->error_state) == 0 && g_n1->zck->error_state == 0)) /*@C14,C12.zck_get_chunk_data.no_success_once_an_error_arose*/
+V_ENSURES(__CPROVER_return_value <= 0 || (V_OLD(GCD_Z(idx)->error_state) == 0 && GCD_Z(idx)->error_state == 0)) /*@C14,C12.zck_get_chunk_data.no_success_once_an_error_arose*/
 ;
 
 /* stored (compressed) bytes of one chunk: exactly the bytes of the chunk's extent, never bytes of the
@@ -236,7 +257,7 @@ V_REQUIRES(zck->comp.data_idx != NULL)
 V_REQUIRES_WF(RD_LIST_WF(zck) && RD_IN_LIST(zck, zck->comp.data_idx))
 V_REQUIRES(zck->check_chunk_hash.type == NULL || zck->check_chunk_hash.type == &zck->chunk_hash_type)
 /* C02/C09: a chunk's end is processed only when exactly its stored size has been consumed and hashed */
-V_REQUIRES(zck->comp.data_loc == RD_CUR_CLEN(zck)) /*@C02.comp_end_dchunk.requires_whole_chunk_consumed*/
+V_REQUIRES_WF(zck->comp.data_loc == RD_CUR_F(zck, comp_length)) /*@C02.comp_end_dchunk.requires_whole_chunk_consumed*/   /* needs a dereferenceable cursor: not expressible after the loop havoc of a control-only unit */
 V_REQUIRES_WF(g_hu_hash != &zck->check_chunk_hash || zck->check_chunk_hash.ctx == NULL || g_hu_total == RD_CUR_F(zck, comp_length))
 V_REQUIRES(zck->comp.end_dchunk == verif_end_dchunk)
 V_REQUIRES_WF(DC_WF(&zck->comp) && DATA_WF(&zck->comp))
@@ -249,6 +270,10 @@ V_ENSURES_WF(__CPROVER_return_value < 1 || g_hu_hash != &zck->check_chunk_hash |
 V_ENSURES(__CPROVER_return_value >= 1 || zck->error_state == 2 || ((V_OLD(zck->error_state) > 0 || zck->mode != ZCK_MODE_READ) && zck->error_state > 0)) /*@C15,C02.comp_end_dchunk.rejected_chunk_leaves_sticky_error*/
 V_ENSURES_WF(__CPROVER_return_value < 1 || (zck->comp.data_idx == RD_NEXT_OF(V_OLD(zck->comp.data_idx)) && zck->comp.data_loc == 0 && zck->check_chunk_hash.ctx != NULL && zck->check_chunk_hash.type == &zck->chunk_hash_type)) /*@C02,C14.comp_end_dchunk.advances_to_next_chunk_with_fresh_hash*/
 V_ENSURES(__CPROVER_return_value < 1 || (zck->comp.data_loc == 0 && zck->check_chunk_hash.ctx != NULL && zck->check_chunk_hash.type == &zck->chunk_hash_type)) /*@C02.comp_end_dchunk.next_chunk_starts_at_zero_with_fresh_hash*/
+/* control-only units (no named list): the cursor moves to NULL or to SOME chunk record that is a valid object distinct from
+ * everything else in sight -- the one-step unfolding of 'the index is a list of distinct allocated records' (assumed there;
+ * the enforcing unit proves the exact successor, clause advances_to_next_chunk_with_fresh_hash) */
+V_ENSURES_CTL(__CPROVER_return_value < 1 || zck->comp.data_idx == NULL || __CPROVER_is_fresh(zck->comp.data_idx, sizeof(zckChunk)))
 V_ENSURES(__CPROVER_return_value < 1 || (V_OLD(zck->error_state) == 0 && zck->error_state == 0)) /*@C12.comp_end_dchunk.never_succeeds_on_a_context_in_error*/
 V_ENSURES(g_hu_hash == &zck->check_chunk_hash || (g_hu_total == V_OLD(g_hu_total) && g_hu_seen == V_OLD(g_hu_seen) && g_hu_ptr == V_OLD(g_hu_ptr) && g_hu_final == V_OLD(g_hu_final) && g_hu_inits == V_OLD(g_hu_inits))) /*@C02.comp_end_dchunk.other_hash_untouched*/
 V_ENSURES(zck->comp.dc_data_loc <= zck->comp.dc_data_size) /*@C03.comp_end_dchunk.dc_buffer_cursor_inside*/
